@@ -1,5 +1,6 @@
 //! Byte encoders written from the format descriptions (never by calling Physis writers).
 pub mod deflate;
+pub mod excel;
 pub mod sqpack;
 
 #[derive(Default, Clone)]
